@@ -365,6 +365,28 @@ def common_summaries():
         o = as_enum(ex, st, deref(ex, st, argv[0]))
         return [(st, Bool(o.disc_bv() == (1 if fn.endswith('is_some') else 0)))]
 
+    # ---------------- format!: the template and the displayed arguments are recorded with the resulting string
+    @reg(r'^core::fmt::rt::Argument::<.*>::new_(display|debug)::<')
+    def fmt_arg(ex, st, fn, argv):
+        v = argv[0]
+        while isinstance(v, Ref):
+            v = ex.read_path(st, v.cell, v.path)
+        return [(st, Agg({0: v}, 'FmtArg'))]
+
+    @reg(r'^Arguments::<.*>::new::<\d+, \d+>$')
+    def fmt_arguments(ex, st, fn, argv):
+        tpl = deref(ex, st, argv[0])
+        args = deref(ex, st, argv[1])
+        return [(st, Agg({0: tpl, 1: args}, 'FmtArguments'))]
+
+    @reg(r'^format$|^std::fmt::format$|^alloc::fmt::format$')
+    def fmt_format_rec(ex, st, fn, argv):
+        sv = st.fresh('formatted', StrSort)
+        a = argv[0]
+        if isinstance(a, Agg) and a.ty == 'FmtArguments':
+            st.roots.setdefault('fmt', {})[str(sv)] = a
+        return [(st, Str(sv))]
+
     # ---------------- formatting / logging (no semantic content)
     @reg(r'^Arguments::<.*>::(new|from_str)|^core::fmt::rt::Argument::<.*>::new_|^log::__private_api::(loc|log)|^Arguments::<\'_>::')
     def fmt_noop(ex, st, fn, argv):
@@ -557,5 +579,33 @@ def common_summaries():
         ch = Chan(f"new-unbounded{n}", None, st.fresh_bool('rx_alive') if st.roots.get('new_rx_symbolic') else True)
         st.roots['new_chans'].append(ch)
         return [(st, Agg({0: SenderVal(ch), 1: ReceiverVal(ch)}, 'tuple'))]
+
+
+    def has_opaque(v, depth=0):
+        if isinstance(v, Opaque):
+            return True
+        if isinstance(v, Agg):
+            return any(has_opaque(x, depth + 1) for x in v.fields.values())
+        if isinstance(v, Enum):
+            return any(has_opaque(x, depth + 1) for x in v.payloads.values())
+        return False
+
+    @reg(r'^<(amq_protocol::[\w:]+|AMQPFrame|AMQPClass|(std::collections::)?BTreeMap<String, AMQPValue>|FieldTable|AMQPProperties|Option<(std::string::)?String>|Option<(std::time::)?Duration>|Duration|std::time::Duration|u8|u16|u32|u64|usize|bool) as Clone>::clone$')
+    def data_clone(ex, st, fn, argv):
+        v = deref(ex, st, argv[0])
+        if has_opaque(v):
+            # byte buffers are plain data too; anything else (channels ...) is not cloneable this way
+            def only_bytes(x):
+                if isinstance(x, Opaque):
+                    return type(x).__name__ in ('ByteVec',)
+                if isinstance(x, Agg):
+                    return all(only_bytes(y) for y in x.fields.values())
+                if isinstance(x, Enum):
+                    return all(only_bytes(y) for y in x.payloads.values())
+                return True
+            if not only_bytes(v):
+                raise Unsupported('Clone of a value holding a model object: ' + fn)
+            return [(st, copy.deepcopy(v))]
+        return [(st, value_copy(v))]
 
     return S
